@@ -34,7 +34,7 @@ def _prepare(units):
             f.write(f'\n#[cfg(kani)]\n#[path = "{hp}"]\nmod {modname};\n')
 
 
-def run(units, prop):
+def run(units, prop, tier='thorough'):
     rows, failures, undecided = [], [], []
     os.makedirs(os.path.dirname(TARGET), exist_ok=True)
     lock = open(os.path.join(VERIF, '.cache', 'kani.lock'), 'w')
@@ -45,7 +45,7 @@ def run(units, prop):
             env = dict(os.environ, CARGO_TARGET_DIR=TARGET, CARGO_NET_OFFLINE='true')
             if u.get('rustflags'):
                 env['RUSTFLAGS'] = u['rustflags']
-            hs = [h for h in u['harnesses'] if prop in h.get('props', u['props']) or prop == 'all']
+            hs = [h for h in u['harnesses'] if (prop in h.get('props', u['props']) or prop == 'all') and (tier == 'thorough' or (h.get('quick') and (prop == 'all' or prop in h.get('quick_props', [prop]))))]
             if not hs:
                 continue
             cmd = ['cargo', 'kani', '-p', u['package'], '-Z', 'function-contracts', '-Z', 'stubbing',
